@@ -52,6 +52,17 @@ WHOLE = {"--": lambda t: ["-- %s" % t], "--nosp": lambda t: ["--%s" % t], "#": l
          "indb2": lambda t: ["    /* %s" % t, "    */"], "indb3": lambda t: ["    /*", "      %s" % t, "    */"]}
 TRAIL = {"t--": lambda t: " -- %s" % t, "t--nosp": lambda t: "--%s" % t, "t/*": lambda t: " /* %s */" % t, "t/*nosp": lambda t: "/*%s*/" % t}
 MARK = re.compile(r"/\*|\*/|--|#")
+MODES = ["sql", "mssql", "mysql", "hql", "bigquery", "oracle", "postgres", "redshift", "snowflake", "spark_sql", "databricks", "sqlite", "vertics", "ibm_db2", "athena"]
+
+
+def whole(st, t):
+    """lines of a whole-line comment in style st; 'bN:<k>' is a block comment over k lines whose inner lines look like DDL"""
+    if st.startswith("bN:"):
+        k = int(st[3:])
+        return ["/* %s" % t] + ["create table phantom_%d (x%d int);" % (i, i) if i % 3 else "  -- still %s, line %d" % (t, i) if i % 3 == 1 else "alter table a add q%d int;" % i
+                                for i in range(k - 2)] + ["*/"]
+    return WHOLE[st](t)
+
 
 
 def bounds(tier):
@@ -78,6 +89,11 @@ def corpus_scripts():
 
 
 def script_lines(name):
+    if name.startswith("w"):
+        # scale sweep: a one-line CREATE TABLE of n columns (a long code line), a second table and an ALTER on the first
+        n = int(name[1:])
+        return ["CREATE TABLE wide (%s);" % ", ".join("col_%d %s" % (i, ("int", "varchar(10) NOT NULL", "decimal(10,2) DEFAULT 0")[i % 3]) for i in range(n)),
+                "CREATE TABLE after_w (", "  k int,", "  m int", ");", "ALTER TABLE wide ADD CONSTRAINT uw UNIQUE (col_0);"]
     if name.startswith("c"):
         return corpus_scripts()[int(name[1:])]
     return SCRIPTS[name]
@@ -129,6 +145,29 @@ def gen_cases(tier):
                         seen_t.add(x[3])
                     keep.append(x)
                 cases.append({"script": sn, "ins": keep})
+    # ... a block comment of every line count 3..90 (thorough ..300) whose inner lines look like statements, at three positions
+    for k in range(3, (300 if tier == "thorough" else 90) + 1):
+        for sn in ("s1", "s3", "s5"):
+            L = script_lines(sn)
+            for pos in sorted({0, len(L) // 2, len(L)}):
+                cases.append({"script": sn, "ins": [["whole", "bN:%d" % k, 1000 + k, pos]]})
+    # ... a code line of growing length (a one-line table of 3..150 (..400) columns) with each trailing style, and each whole-line style below it
+    for n in range(3, (400 if tier == "thorough" else 150) + 1):
+        for st in TRAIL:
+            cases.append({"script": "w%d" % n, "ins": [["trail", st, 0, 0]]})
+            cases.append({"script": "w%d" % n, "ins": [["trail", st, 15, 5]]})
+        cases.append({"script": "w%d" % n, "ins": [["whole", list(WHOLE)[n % 10], 3, 1 + n % 5]]})
+    # every style at every position under every output mode (a dialect must not change what a comment is)
+    for sn in ("s1", "s2", "s5"):
+        L = script_lines(sn)
+        for m in MODES[1:]:
+            for st in WHOLE:
+                if st not in ("indb2", "indb3"):
+                    for pos in range(len(L) + 1):
+                        cases.append({"script": sn, "ins": [["whole", st, 3, pos]], "mode": m})
+            for st in TRAIL:
+                for pos in range(len(L)):
+                    cases.append({"script": sn, "ins": [["trail", st, 0, pos]], "mode": m})
     for n in range(1, (700 if tier == "thorough" else 300) + 1):
         for j, st in enumerate(("--", "b1", "b3", "t--")):
             sn = list(SCRIPTS)[(n + j) % len(SCRIPTS)]
@@ -164,7 +203,7 @@ def build(case):
     for kind, st, ti, pos in case["ins"]:
         t = text_of(ti)
         if kind == "whole":
-            pre[pos].extend(WHOLE[st](t))
+            pre[pos].extend(whole(st, t))
     trail = {}
     for kind, st, ti, pos in case["ins"]:
         if kind == "trail":
@@ -181,7 +220,7 @@ def build(case):
             # everything after a trailing '--' on the same line is the text of that one '--' comment
             inserted[open_dash[pos]] += TRAIL[st](t)
             continue
-        inserted.append(" ".join(WHOLE[st](t)) if kind == "whole" else TRAIL[st](t))
+        inserted.append(" ".join(whole(st, t)) if kind == "whole" else TRAIL[st](t))
         if kind == "trail" and st.startswith("t--"):
             open_dash[pos] = len(inserted) - 1
     return "\n".join(res), inserted
@@ -223,13 +262,14 @@ _BASE = {}
 
 def evaluate(case):
     sn = case["script"]
-    if sn not in _BASE:
-        _BASE[sn] = run_ddl("\n".join(script_lines(sn)))
-    b = _BASE[sn]
+    mode = case.get("mode", "sql")
+    if (sn, mode) not in _BASE:
+        _BASE[(sn, mode)] = run_ddl("\n".join(script_lines(sn)), None, {"output_mode": mode})
+    b = _BASE[(sn, mode)]
     if b[0] != "ok" or not entities(b[1]):
         return {"diffs": [], "skipped": True}
     ddl, inserted = build(case)
-    r = run_ddl(ddl)
+    r = run_ddl(ddl, None, {"output_mode": mode})
     diffs = []
     if r[0] != "ok":
         diffs.append(diff("run", "raises:" + r[1], "result", r[2]))
@@ -269,4 +309,4 @@ def describe(case):
 
 
 def snippet(case):
-    return _snip(build(case)[0]) + "# entities must equal those of the script without the comment:\n# %r\n" % "\n".join(script_lines(case["script"]))
+    return _snip(build(case)[0], None, {"output_mode": case.get("mode", "sql")}) + "# entities must equal those of the script without the comment:\n# %r\n" % "\n".join(script_lines(case["script"]))
